@@ -33,10 +33,14 @@ type c09Op struct {
 
 type c09Case struct {
 	// GOARCH: the build of the child ("" = amd64, or 386: the loader is build-tagged code)
-	GOARCH  string  `json:"goarch,omitempty"`
-	Threads int     `json:"threads"`
-	Uid     int     `json:"uid"` // 0 or 65534
-	Ops     []c09Op `json:"ops"`
+	GOARCH string `json:"goarch,omitempty"`
+	// InjectEnosys: the child runs under strace with the fault injection seccomp:error=ENOSYS: seccomp(2) fails with
+	// ENOSYS in every thread without any filter being installed (a kernel without the system call). Every load must
+	// fail and leave everything as it was; probing for support must change nothing.
+	InjectEnosys bool    `json:"inject_enosys,omitempty"`
+	Threads      int     `json:"threads"`
+	Uid          int     `json:"uid"` // 0 or 65534
+	Ops          []c09Op `json:"ops"`
 }
 
 func c09Policy(op c09Op) spec.Policy { return c09PolicyFor("x86_64", op) }
@@ -122,7 +126,10 @@ func drawC09(t *rapid.T) c09Case {
 	n := rapid.IntRange(2, 12).Draw(t, "nops")
 	// flag words: the four combinations of thread-sync and log, alone and together with further known bits (0x4
 	// SPEC_ALLOW, 0x10 TSYNC_ESRCH) or with bits no kernel knows (the kernel answers EINVAL and attaches nothing)
-	flags := []uint32{0, 0, 1, 1, 2, 3, 0x80, 0xfffffffe, 0x11, 0x4, 0x5, 0x7, 0x13, 0x102, 0x103, 0x101, 0x43, 0x8003, 0x80000003, 0x80000001, 0x42}
+	flags := []uint32{0, 0, 1, 1, 2, 3, 0x80, 0xfffffffe, 0x11, 0x4, 0x5, 0x7, 0x13, 0x102, 0x103, 0x101, 0x43, 0x8003, 0x80000003, 0x80000001, 0x42,
+		// combinations of bits the kernel knows: some it accepts (0x8 new listener: returns a descriptor; 0x19, 0x28),
+		// some it refuses with EINVAL (0x20 and 0x22 wait-killable without a listener, 0x9 thread-sync with a listener)
+		0x8, 0x9, 0x20, 0x22, 0x28, 0x19, 0xa, 0x30, 0x3f}
 	kinds := []string{"valid", "valid", "valid", "valid", "unknown-name", "bad-index", "no-groups", "oversize", "allow-only", "log-only",
 		"valid", "valid", "valid", "valid", "unknown-name", "bad-index", "no-groups", "oversize", "allow-only", "log-only",
 		"valid", "valid", "valid", "valid", "unknown-name", "bad-index", "no-groups", "oversize", "allow-only", "log-only",
@@ -130,6 +137,9 @@ func drawC09(t *rapid.T) c09Case {
 		[]string{"len-65536", "len-65536", "len-65535", "len-65537", "len-131072"}[rapid.IntRange(0, 4).Draw(t, "lenKind")]}
 	if rapid.IntRange(0, 3).Draw(t, "abi") == 0 {
 		c.GOARCH = "386"
+	}
+	if rapid.IntRange(0, 7).Draw(t, "injectEnosys") == 0 {
+		c.InjectEnosys, c.Uid, c.GOARCH = true, 0, ""
 	}
 	loadedNoTsync := map[int]bool{}
 	faulted := false
@@ -237,7 +247,11 @@ func checkC09(raw json.RawMessage) (ev.Result, error) {
 		}
 		addSnap()
 	}
-	rr, err := kchild.Run(job, kchild.RunOpts{Uid: c.Uid, GOARCH: c.GOARCH})
+	ro := kchild.RunOpts{Uid: c.Uid, GOARCH: c.GOARCH}
+	if c.InjectEnosys {
+		ro.Strace, ro.Inject = true, "seccomp:error=ENOSYS"
+	}
+	rr, err := kchild.Run(job, ro)
 	if err != nil {
 		return ev.Result{}, ev.Inconclusivef("%v", err)
 	}
@@ -253,6 +267,11 @@ func checkC09(raw json.RawMessage) (ev.Result, error) {
 			}
 		}
 		return ev.Result{}, fmt.Errorf("the child was killed by signal %v during/after %s: an operation changed the process state destructively", rr.Signal, last)
+	}
+	for _, e := range rr.Events {
+		if e.Ev == "thread-died" {
+			return ev.Result{}, fmt.Errorf("step %d: %s: the operation destroyed the thread it ran on (strict mode?) - the process state was changed", e.Step, e.Err)
+		}
 	}
 	if !rr.Done() {
 		return ev.Result{}, ev.Inconclusivef("child did not finish (exit %d, stderr %q)", rr.Exit, clip(rr.Stderr, 300))
@@ -302,7 +321,10 @@ func checkC09(raw json.RawMessage) (ev.Result, error) {
 	}
 	refusedThenMore := false
 	sawRefusal := false
-	enosys := false
+	enosys := c.InjectEnosys
+	if c.InjectEnosys {
+		res.Classes = append(res.Classes, "fault:seccomp-ENOSYS-by-strace-injection")
+	}
 	for k, op := range c.Ops {
 		cur, err := snap(k + 1)
 		if err != nil {
@@ -313,6 +335,9 @@ func checkC09(raw json.RawMessage) (ev.Result, error) {
 		}
 		switch op.Op {
 		case "enosys-fault":
+			if c.InjectEnosys {
+				break // seccomp(2) fails already; the filter-based fault cannot be installed and is not needed
+			}
 			// the injected filter is attached to every thread: nothing to check, the next snapshot is the new baseline
 			if oe := rr.Find(opAt[k], "outer-enosys"); len(oe) != 1 || oe[0].Err != "" {
 				return res, ev.Inconclusivef("could not inject the ENOSYS fault")
